@@ -253,13 +253,13 @@ var c02Prop = &Prop[c02Case]{ID: "C02", Check: c02Check, Classify: c02Classify}
 func init() { registerReplay(c02Prop) }
 
 func c02Gen(t *rapid.T) c02Case {
-	L := rapid.IntRange(0, 14).Draw(t, "L")
-	n := rapid.IntRange(0, 5).Draw(t, "n")
+	L := drawLen(t, 0, 14, "L")
+	n := drawCount(t, 0, 5, 400, "n")
 	i := rapid.IntRange(0, L).Draw(t, "i")
 	c := c02Case{HostLen: L, GuestLen: n, Index: i, Embed: rapid.Bool().Draw(t, "embed")}
-	hc := locCfg{L: L, Hot: hotAround(L, i, 0), MaxDepth: 3, MaxParts: 4, Ambig: true, Sites: true}
+	hc := locCfg{L: L, Hot: hotAround(L, i, 0), MaxDepth: 3, MaxParts: scopeParts(4), Ambig: true, Sites: true}
 	gc := locCfg{L: n, Hot: []int{0, n}, MaxDepth: 2, MaxParts: 3, Ambig: true, Sites: true}
-	c.Host = genFeats(t, hc, rapid.IntRange(0, 4).Draw(t, "nhost"), "h", true)
+	c.Host = genFeats(t, hc, drawCount(t, 0, 4, 9, "nhost"), "h", true)
 	c.Guest = genFeats(t, gc, rapid.IntRange(0, 3).Draw(t, "nguest"), "g", false)
 	return c
 }
@@ -293,6 +293,10 @@ func TestC02(t *testing.T) {
 	st := newStats("C02")
 	defer st.flush()
 	rapidPart(t, c02Prop, st, "rapid", pick(30000, 250000), c02Gen)
+	if t.Failed() {
+		return
+	}
+	rapidLargePart(t, c02Prop, st, pick(1500, 20000), c02Gen)
 	if t.Failed() {
 		return
 	}
